@@ -312,3 +312,70 @@ theorem compile_rules_correct (db : DB) (rs : List Rule) (har : ∀ r ∈ rs, Ar
     rw [compile_correct db r (har r (by simp)), ih (fun r' hr' => har r' (by simp [hr']))]
 
 end Logica.CQ
+
+namespace Logica.CQ
+
+theorem expr_agree (vm : VMap) (env : Env) (cand : Cand) (h : Agree vm env cand) :
+    ∀ (e : Expr), evalS cand (compileE vm e) = evalE env e
+  | .term t => term_agree vm env cand h t
+  | .bin op a b => by
+    simp only [compileE, evalS, evalE]
+    rw [expr_agree vm env cand h a, expr_agree vm env cand h b]
+
+theorem filter_map_eq_filterMap_filter_map {α β γ : Type} (p : α → Bool) (g : α → γ) (f : α → Option β)
+    (t : β → Bool) (h : β → γ) :
+    ∀ (l : List α), (∀ c ∈ l, match f c with
+        | some e => p c = t e ∧ g c = h e
+        | none => p c = false) →
+      (l.filter p).map g = ((l.filterMap f).filter t).map h
+  | [], _ => rfl
+  | c :: l, hyp => by
+    have hc := hyp c (by simp)
+    have ih := filter_map_eq_filterMap_filter_map p g f t h l (fun c' hc' => hyp c' (by simp [hc']))
+    cases hf : f c with
+    | none =>
+      rw [hf] at hc
+      simp only at hc
+      simp [hc, hf, ih]
+    | some e =>
+      rw [hf] at hc
+      simp only at hc
+      by_cases ht : t e = true
+      · simp [hc.1, ht, hf, ih, hc.2]
+      · simp [hc.1, ht, hf, ih]
+
+/-- **Compiler correctness with arithmetic and comparisons**: for rules whose heads are arithmetic
+expressions and whose bodies are atoms plus comparisons between arithmetic expressions, the emitted
+SELECT … FROM … WHERE returns exactly the rows the rule denotes. -/
+theorem xcompile_correct (db : DB) (r : XRule)
+    (har : ∀ a ∈ r.body, ∀ row ∈ db a.pred, row.length = a.args.length) :
+    evalXSelect db (xcompile r) = xdenote db r := by
+  unfold evalXSelect xdenote
+  rw [solve_eq]
+  simp only [xcompile, List.map_map]
+  have : (List.map (fun a => db a.pred) r.body) = List.map (db ∘ fun x => x.pred) r.body := rfl
+  rw [← this]
+  apply filter_map_eq_filterMap_filter_map
+  intro c hc
+  have hshape := arity_of_mem db r.body c har (mem_product _ c hc)
+  have hat := atoms_lemma c r.body 0 ⟨[], []⟩ [] c (by simp) hshape (agree_nil c)
+  cases hm : matchAll r.body c [] with
+  | none =>
+    rw [hm] at hat
+    have : condsHold (compileAtoms r.body 0 ⟨[], []⟩).conds c = false := by simpa [ArgsPost] using hat
+    simp [this]
+  | some e =>
+    rw [hm] at hat
+    simp only [ArgsPost] at hat
+    have hcond : condsHold (compileAtoms r.body 0 ⟨[], []⟩).conds c = true := by rw [hat.2]; rfl
+    refine ⟨?_, ?_⟩
+    · simp only [hcond, Bool.true_and, testsHold, testsHoldEnv, List.all_map]
+      apply List.all_congr rfl
+      intro t
+      simp only [Function.comp]
+      rw [expr_agree _ _ _ hat.1, expr_agree _ _ _ hat.1]
+    · apply List.map_congr_left
+      intro e' _
+      exact expr_agree _ _ _ hat.1 e'
+
+end Logica.CQ
